@@ -32,6 +32,8 @@ where
 {
     send: std::sync::mpsc::Sender<Option<U>>,
     receive: std::sync::mpsc::Receiver<Option<V>>,
+    /// The other side has been told to finish (it was sent a `None`).
+    finishing: bool,
 }
 
 impl<Item: Send, T: Send> ThreadCommunication<Item, T> {
@@ -39,9 +41,9 @@ impl<Item: Send, T: Send> ThreadCommunication<Item, T> {
         let (tx_item, rx_item) = std::sync::mpsc::channel::<Option<Item>>();
         let (tx_t, rx_t) = std::sync::mpsc::channel::<Option<T>>();
         // For the ParallelMap (sending Item, receiving T).
-        let par_map = ThreadCommunication { send: tx_item, receive: rx_t };
+        let par_map = ThreadCommunication { send: tx_item, receive: rx_t, finishing: false };
         // For the thread (receiving Item, sending T).
-        let thread = ThreadCommunication { send: tx_t, receive: rx_item };
+        let thread = ThreadCommunication { send: tx_t, receive: rx_item, finishing: false };
         (par_map, thread)
     }
 }
@@ -59,11 +61,22 @@ where
             return None;
         }
 
-        // Get answer from the thread number `self.now`.
-        let result = self.communication[self.now].receive.recv().unwrap_or_default();
+        // Get answer from the thread number `self.now`. A closed channel means that the thread
+        // is gone. That is the end of the iteration only if the thread has been told to finish.
+        // Otherwise `fun` panicked: propagate the failure instead of silently dropping all
+        // remaining items.
+        let result = match self.communication[self.now].receive.recv() {
+            Ok(result) => result,
+            Err(_) if self.communication[self.now].finishing => None,
+            Err(_) => panic!("parallel_map: a worker thread died (the mapped function panicked)"),
+        };
 
         // Some(task) means more work for the thread, None means the thread should finish.
-        let _ = self.communication[self.now].send.send(self.iter.next());
+        let next_task = self.iter.next();
+        if next_task.is_none() {
+            self.communication[self.now].finishing = true;
+        }
+        let _ = self.communication[self.now].send.send(next_task);
 
         // Move to the next thread (which should be finishing soonest if all tasks take
         // the same time).
